@@ -10,7 +10,7 @@ OUTDIR = os.environ.get('VERIF_SCRATCH', VERIF)
 HAVE_ALL = ['ASINH', 'ACOSH', 'ATANH', 'EXPM1', 'LOG1P', 'ATAN2', 'HYPOT', 'CSQRT', 'CPOW', 'CEXP', 'CLOG',
             'CSIN', 'CCOS', 'CTAN', 'CSINH', 'CCOSH', 'CTANH', 'CASIN', 'CACOS', 'CATAN', 'CASINH', 'CACOSH', 'CATANH']
 
-SAN = ['-fsanitize=address,undefined', '-fno-sanitize=pointer-overflow', '-fno-sanitize-recover=undefined',
+SAN = ['-fsanitize=address,undefined', '-fno-sanitize=pointer-overflow,nonnull-attribute', '-fno-sanitize-recover=undefined',
        '-fno-omit-frame-pointer']
 # flags mirroring the repository's own build (PIC, hidden visibility, A_EXPORTS)
 REPOFLAGS = ['-fPIC', '-fvisibility=hidden', '-DA_EXPORTS']
@@ -171,6 +171,8 @@ def sanitizer_sig(text):
         return None
     fn = None
     for m in re.finditer(r'#\d+ 0x[0-9a-f]+ in (\w+) [^\n]*/src/(\w+\.c)', text):
+        if m.group(1) in ('a_copy', 'a_move', 'a_swap', 'a_fill', 'a_zero', 'a_alloc_'):
+            continue  # generic helpers: name the caller
         fn = m.group(1)
         break
     if not fn:
